@@ -82,6 +82,23 @@ COMMON_TB = [
 ]
 
 PROPS = {
+    "C17": {
+        "harness": "c17", "driver": "echo",
+        "lean_modules": ["BleveModel.Props.C17"],
+        "rule": ("(1) random query trees of the C02 family marshalled, re-parsed by ParseQuery (twice) and executed next to the original "
+                 "on scorch and upsidedown indexes; (2) random search requests (custom sort objects with type/mode/missing, facets "
+                 "with prefix filter / numeric / date ranges, fields, highlight, locations, score none, paging) through JSON and "
+                 "executed; (3) query strings generated from the documented grammar (+/- prefixes, field scoping, words, phrases, "
+                 "fuzziness, wildcards, regexps, boosts, numeric and date comparisons) parsed and compared with the directly "
+                 "constructed boolean query; (4) random byte strings over an operator-heavy alphabet (invalid UTF-8, non-ASCII digits, "
+                 "dangling backslash / quote / tilde endings): no panic, same answer when repeated, and fixed probe strings parse "
+                 "identically whatever was parsed before (pooled lexer). non-trivial = non-empty results / every fuzz comparison"),
+        "trusted_base": COMMON_TB + ["encoding/json", "the go/ast extractor of the ParseQuery decision list and struct tags (harness/cmd/extract/dispatch.go)",
+                                     "goyacc-generated parser tables (exercised, not modelled)"],
+        "assumptions": ["word~N^B (suffixes glued) is outside the documented syntax; the generator separates them by a space", LEVEL_NOTE],
+        "floors": {"query-json/results": 100, "qs-grammar/results": 100, "request-json/results": 40, "qs-fuzz/probe-after": 300},
+        "thorough_shards": 8,
+    },
     "C16": {
         "harness": "c16", "driver": "echo",
         "lean_modules": ["BleveModel.Props.C16"],
